@@ -23,7 +23,15 @@ def run(tier, seed, replay=None):
     pts = universe.points(tier, seed, files_quick=2000)
     if tier == "thorough":
         pts = pts[::2]
-    extra = universe.boundary_sources() + universe.name_sources()
+    # Families on which the pinned release itself breaks another property and the tree was
+    # repaired (DESIGN 12.4): the release output cannot be the yardstick there.
+    #   parenattr: the release drops the attributes of an inner parenthesised expression (C01,
+    #   fix 8246e5f)
+    #   attrmisc: attributes of unnamed parameters / closure block bodies dropped, `1. ..=2.` glued
+    #   to `1...=2.` (C01, fixes 251b4c4, a3e1b0e, 0ca874c)
+    repaired = ("gen/parenattr_", "gen/attrmisc_", "gen/floatrange_")
+    extra = [x for x in universe.boundary_sources() if not x[0].startswith(repaired)] + \
+        universe.name_sources()
     for i, (name, text) in enumerate(extra):
         for w in (60, 100, 125) if tier == "quick" else (23, 37, 40, 60, 77, 80, 100, 105, 120, 125, 137, 199):
             se = RELEASED[(core.fnv(name.encode()) + w) % 4]
@@ -35,6 +43,8 @@ def run(tier, seed, replay=None):
         for val in vals:
             for (name, text) in universe.family_instances(f"{opt}={val}",
                                                            per_family=0 if tier == "thorough" else 3):
+                if name.startswith(repaired):
+                    continue
                 h = core.fnv(f"{opt}={val}:{name}".encode())
                 for se in (("2015", "2021")[h % 2], "2024"):
                     if tier == "quick" and (h + seed) % 4 and se != "2024":
